@@ -62,6 +62,7 @@ class Registry:
         self.fields = {}        # class name -> {field: type string}
         self.lemmas = {}
         self.classes_meta = {}  # class name -> dict(invariant=[...])
+        self.opaque_consts = {}  # module-level constant name -> type string (value abstracted: a named symbol)
         self.spec_sources = {}
 
     def contract(self, key, **kw):
@@ -79,6 +80,9 @@ class Registry:
 
     def declare_fields(self, cls, **fields):
         self.fields.setdefault(cls, {}).update(fields)
+
+    def declare_const(self, name, ty):
+        self.opaque_consts[name] = ty
 
     def lemma(self, name, vars, hyps, concl, by='smt', **kw):
         self.lemmas[name] = Lemma(name, vars, hyps, concl, by, **kw)
@@ -103,6 +107,7 @@ REG = Registry()
 contract = REG.contract
 declare_fields = REG.declare_fields
 lemma = REG.lemma
+declare_const = REG.declare_const
 spec = REG.spec
 
 
